@@ -10,6 +10,11 @@ import (
 //
 // See https://www.w3.org/TR/2019/REC-wasm-core-1-20191205/#custom-section%E2%91%A0
 func decodeCustomSection(r *bytes.Reader, name string, limit uint64) (result *wasm.CustomSection, err error) {
+	if limit > uint64(r.Len()) {
+		// Truncated section: buffer what is there, DecodeModule then rejects the declared size.
+		limit = uint64(r.Len())
+	}
+
 	buf := make([]byte, limit)
 	_, err = r.Read(buf)
 
